@@ -19,6 +19,10 @@ static struct {
 	uint8_t fifo[16]; uint8_t head, tail;	/* scenario bytes: tail - head of them are unread */
 	uint32_t pre_left, pre_next;		/* bytes put by the set-up that are still unread, and the index of the oldest of them */
 	int32_t put_entry_occ, get_entry_occ, empty_entry_occ;
+	/* a call takes effect somewhere between its begin and its end; the other side may see the effect before the call has
+	 * returned (wherever the code has a scheduling point after its publishing store) */
+	uint8_t put_inprog, put_v, put_early;	/* a put is in progress / its byte / the consumer has already taken that byte */
+	uint8_t get_inprog, get_owes;		/* a get is in progress / the producer has already reused the slot it is freeing */
 } G;
 static uint64_t n_put_ok, n_put_fail, n_get_ok, n_get_fail, n_empty_true, n_empty_false;
 
@@ -27,33 +31,51 @@ uint8_t c5_value(int i) { return valset[i % 5]; }
 static int occ(void) { return (int)G.pre_left + (uint8_t)(G.tail - G.head); }
 static uint8_t pre_value(uint32_t j) { return (uint8_t)(0x55 + j * 3); }
 
-void orc_put_begin(void) { G.put_entry_occ = occ(); }
+void orc_put_begin(uint8_t v) { G.put_entry_occ = occ(); G.put_inprog = 1; G.put_v = v; G.put_early = 0; }
 void orc_put_end(int ok, uint8_t v)
 {
+	G.put_inprog = 0;
 	if (ok) {
 		n_put_ok++;
 		vs_trace("put(0x%02x) succeeded", v);
-		if (occ() >= C5.L - 1) vs_fail("overfill", "put succeeded although %d unread bytes were in a ring of length %d: an unread byte is overwritten or the ring appears empty", occ(), C5.L);
+		if (G.put_early) { G.put_early = 0; return; }	/* the consumer took this byte while the call was still returning */
+		if (occ() >= C5.L - 1) {
+			/* a get that is still in progress may already have freed its slot: then that get has to deliver a byte */
+			if (G.get_inprog && !G.get_owes && occ() - 1 < C5.L - 1) G.get_owes = 1;
+			else vs_fail("overfill", "put succeeded although %d unread bytes were in a ring of length %d: an unread byte is overwritten or the ring appears empty", occ(), C5.L);
+		}
 		G.fifo[G.tail++ & 15] = v;
 	} else {
 		n_put_fail++;
 		vs_trace("put(0x%02x) failed", v);
+		if (G.put_early) vs_fail("get-from-empty", "the consumer received 0x%02x, the byte of a put that then FAILED", v);
 		/* only gets can run during a put (single producer): the occupancy was highest at entry */
 		if (G.put_entry_occ < C5.L - 1) vs_fail("put-fails-when-not-full", "put failed although at most %d (< buf_len-1 = %d) unread bytes were in the buffer at any instant during the call", G.put_entry_occ, C5.L - 1);
 	}
 }
-void orc_get_begin(void) { G.get_entry_occ = occ(); }
+void orc_get_begin(void) { G.get_entry_occ = occ(); G.get_inprog = 1; G.get_owes = 0; }
 void orc_get_end(int r)
 {
+	G.get_inprog = 0;
 	if (r < 0) {
 		n_get_fail++;
 		vs_trace("get -> %d", r);
 		if (r != -1) vs_fail("get-value", "get returned %d", r);
+		if (G.get_owes) vs_fail("overfill", "a put succeeded into a full ring while this get was in progress, but the get then returned -1: no slot was freed");
 		if (G.get_entry_occ > 0) vs_fail("get-fails-when-not-empty", "get returned -1 although the buffer held at least %d unread byte(s) during the whole call", G.get_entry_occ);
 	} else {
 		n_get_ok++;
 		vs_trace("get -> 0x%02x", r);
-		if (occ() == 0) vs_fail("get-from-empty", "get returned 0x%x but every byte put so far was already delivered (duplicate or invented byte)", r);
+		G.get_owes = 0;
+		if (occ() == 0) {
+			/* the byte of a put that has published it but not yet returned */
+			if (G.put_inprog && !G.put_early) {
+				if (r != G.put_v) vs_fail("get-value", "get returned %d (0x%x), the only byte it can have seen is 0x%02x of the put in progress", r, r, G.put_v);
+				G.put_early = 1;
+				return;
+			}
+			vs_fail("get-from-empty", "get returned 0x%x but every byte put so far was already delivered (duplicate or invented byte)", r);
+		}
 		uint8_t exp = G.pre_left ? pre_value(G.pre_next) : G.fifo[G.head & 15];
 		if (r != exp) vs_fail("get-value", "get returned %d (0x%x), expected the next byte in put order 0x%02x as an unsigned value", r, r, exp);
 		if (G.pre_left) { G.pre_left--; G.pre_next++; } else G.head++;
@@ -64,7 +86,7 @@ void orc_empty_end(bool e)
 {
 	vs_trace("empty -> %d", e);
 	if (e) { n_empty_true++; if (G.empty_entry_occ > 0) vs_fail("empty-when-not-empty", "ringbuf_empty returned true although the buffer held %d unread byte(s) during the whole call", G.empty_entry_occ); }
-	else { n_empty_false++; if (occ() == 0) vs_fail("not-empty-when-empty", "ringbuf_empty returned false although the buffer was empty during the whole call"); }
+	else { n_empty_false++; if (occ() == 0 && !(G.put_inprog && !G.put_early)) vs_fail("not-empty-when-empty", "ringbuf_empty returned false although the buffer was empty during the whole call"); }
 }
 
 static void check_arena(void)
@@ -78,7 +100,10 @@ static void scn_init(void)
 {
 	memset(&G, 0, sizeof(G));
 	for (int i = 0; i < arena_len(); i++) c5_arena[i] = (uint8_t)(0xC0 + i);
-	ringbuf_init(&c5_rb, C5_STORE, (size_t)C5.L);
+	/* the descriptor is built both ways the API offers: ringbuf_init over a descriptor full of rubbish, and (every other
+	 * scenario) the static initialiser */
+	if (C5.k & 1) { memset(&c5_rb, 0xa5, sizeof(c5_rb)); ringbuf_init(&c5_rb, C5_STORE, (size_t)C5.L); }
+	else { ringbuf_t tmpl = RINGBUF_VAR_INIT(C5_STORE, (size_t)C5.L); memcpy(&c5_rb, &tmpl, sizeof(c5_rb)); }
 	vs_region(&c5_rb, sizeof(c5_rb), VS_SHARED, "rb");
 	vs_region(c5_arena, (size_t)arena_len(), VS_SHARED, "store-16");
 	vs_region(&G, sizeof(G), VS_GHOST, "ghost");
